@@ -247,7 +247,7 @@ def main(repo, outdir):
         # the scalar conversion of args must be elementwise and order preserving
         conv = [s for s in ex.body if isinstance(s, ast.Assign) and path_of(s.targets[0]) == "args"]
         for c in conv:
-            if ast.unparse(c.value) != "tuple((arg.item() if isinstance(arg, np.ndarray) and arg.size == 1 else arg for arg in args))":
+            if ast.unparse(c.value) != "tuple((arg.flat[0] if isinstance(arg, np.ndarray) and arg.size == 1 else arg for arg in args))":
                 fail(c, "argument conversion in execute")
 
         # ---------------- Model
